@@ -385,6 +385,7 @@ func (e *Executor) executeTarget(
 	// Write outputs to the cache:
 	logger.Debugf("writing outputs for target %s", target.Label)
 	update(worker.Status(fmt.Sprintf("%s complete. writing outputs...", target.Label)))
+	verifhook.Gate("t.before.store", "t", target.Label.String())
 	err = e.OnTargetComplete(ctx, target, update)
 	verifhook.Emit("t.stored", "t", target.Label.String(), "ok", err == nil, "outhash", target.OutputHash)
 	if err != nil {
@@ -452,6 +453,7 @@ func (e *Executor) OnTargetComplete(ctx context.Context, target *model.Target, u
 	defer func() {
 		target.CacheTime += time.Since(cacheStart)
 	}()
+	verifhook.Gate("t.before.result", "t", target.Label.String())
 	verifhook.Emit("t.result.write", "t", target.Label.String(), "key", targetResult.ChangeHash, "outhash", targetResult.OutputHash, "outputs", len(targetResult.Outputs))
 
 	return e.targetCache.Write(ctx, targetResult)
